@@ -307,13 +307,26 @@ class Model:
             if (in_module is None or f.module.name == in_module)
             and (in_class is None or (f.cls is not None and f.cls.name == in_class))
         ]
+        if not c and in_module is not None:
+            # moved to another module of the package (and imported back): accept it if the name is unique
+            c = [f for f in self.find_funcs(name) if (in_class is None or (f.cls is not None and f.cls.name == in_class)) and (in_class is not None or f.cls is None)]
         if len(c) != 1:
             where = f" in {in_module or ''}{':' + in_class if in_class else ''}"
             raise AnalysisError(f"anchor vanished or ambiguous: function {name}{where} ({len(c)} candidates)")
         return c[0]
 
+    def find_assign(self, name: str, in_module: str) -> Optional[ast.AST]:
+        """value of a module-level constant; looked for in the whole package when it has been moved"""
+        mi = self.modules.get(in_module)
+        if mi is not None and name in mi.assigns:
+            return mi.assigns[name]
+        hits = [m_.assigns[name] for m_ in self.modules.values() if name in m_.assigns]
+        return hits[0] if len(hits) == 1 else None
+
     def find_class(self, name: str, in_module: Optional[str] = None) -> ClassInfo:
         c = [k for k in self.classes.values() if k.name == name and (in_module is None or k.module.name == in_module)]
+        if not c and in_module is not None:
+            c = [k for k in self.classes.values() if k.name == name]
         if len(c) != 1:
             raise AnalysisError(f"anchor vanished or ambiguous: class {name} ({len(c)} candidates)")
         return c[0]
